@@ -49,14 +49,18 @@ def model_scenarios(work, rep, tier):
     return scns
 
 
-def select(scns, seed, budget):
-    """all pairs of <= 1 step; a seeded sample of the longer ones (the model laws were checked on all)"""
-    short = [s for s in scns if len(s["hist"]) <= 1]
-    longer = [s for s in scns if len(s["hist"]) > 1]
+def select(scns, seed, short_budget, long_budget):
+    """the seeds themselves, a seeded sample of the one-step pairs (thorough: all of them) and of the longer ones;
+    the model laws were checked by TLC on all of them"""
     rnd = random.Random(seed)
-    if len(longer) > budget:
-        longer = rnd.sample(longer, budget)
-    return short + longer
+    zero = [s for s in scns if len(s["hist"]) == 0]
+    short = [s for s in scns if len(s["hist"]) == 1]
+    longer = [s for s in scns if len(s["hist"]) > 1]
+    if len(short) > short_budget:
+        short = rnd.sample(short, short_budget)
+    if len(longer) > long_budget:
+        longer = rnd.sample(longer, long_budget)
+    return zero + short + longer
 
 
 def run_c08(prop, tier, seed, replay=None):
@@ -70,8 +74,8 @@ def run_c08(prop, tier, seed, replay=None):
     else:
         model = model_scenarios(work, rep, tier)
         n_model = len(model)
-        budget, nrand, maxlen = (600, 150, 5) if tier == "quick" else (10000, 2000, 6)
-        scns = select(model, seed, budget)
+        sb, lb, nrand, maxlen = (450, 300, 110, 5) if tier == "quick" else (100000, 6000, 1500, 6)
+        scns = select(model, seed, sb, lb)
         rf = work / "rand.scn.ndjson"
         harness("avh_c08", ["gen", "--seed", seed, "--count", nrand, "--maxlen", maxlen, "--out", rf])
         rand = [json.loads(l) for l in rf.read_text().splitlines() if l.strip()]
@@ -117,6 +121,108 @@ def run_c08(prop, tier, seed, replay=None):
 
     def replay_of(i):
         return {"scenario": scns[i], "event": json.loads(events[i])}
+
+    rep.classify(verdicts, replay_of)
+    return rep.finish()
+
+
+# --------------------------------------------------------------------------------------------
+# C09
+# --------------------------------------------------------------------------------------------
+def group_by_writer(scns):
+    """(W, R, hist, vals) scenarios -> one line per writer schema with all its readers"""
+    groups = {}
+    for s in sorted(scns, key=lambda x: len(x["hist"])):
+        k = json.dumps(s["W"], sort_keys=True)
+        g = groups.setdefault(k, {"W": s["W"], "vals": s["vals"], "readers": []})
+        g["readers"].append({"R": s["R"], "hist": s["hist"]})
+    return [groups[k] for k in sorted(groups)]
+
+
+def run_c09(prop, tier, seed, replay=None):
+    rep = vf.Report(prop, tier, seed)
+    vf.build_harness()
+    work = vf.fresh_workdir(f"{prop}-{tier}")
+    n_enum = n_evo = 0
+    if replay:
+        payload = json.loads(Path(replay).read_text())["payload"]
+        lines = [payload["scenario"]]
+    else:
+        # (a) the evolution pairs of C08 (the model law SafeHistory => readable is checked on all of them)
+        cfg = "MC_Resolve_1.cfg" if tier == "quick" else "MC_Resolve_q.cfg"
+        r = vf.tlc_mc(work, "MC_Resolve.tla", cfg, workers=4, timeout=1500)
+        vf.log(f"MC_Resolve/{cfg}: {r.distinct} states in {r.wall:.0f}s")
+        if not r.ok:
+            raise vf.ToolError(f"MC_Resolve: law violated on the model: {r.violated}")
+        rep.add_states(r.distinct, r.generated)
+        evo = [json.loads(s) for s in sorted(set(r.tagged("SCN")))]
+        if not any(s["hist"] and all(h["safe"] for h in s["hist"]) for s in evo):
+            raise vf.ToolError("no safe history among the evolution pairs (vacuous)")
+        rnd = random.Random(seed)
+        longer = [s for s in evo if len(s["hist"]) > 1]
+        if len(longer) > 1500:
+            longer = rnd.sample(longer, 1500)
+        evo = [s for s in evo if len(s["hist"]) <= 1] + longer
+        n_evo = len(evo)
+        lines = group_by_writer(evo)
+        rf = work / "rand.scn.ndjson"
+        nrand = 60 if tier == "quick" else 500
+        harness("avh_c09", ["gen", "--seed", seed, "--count", nrand, "--maxlen", 4, "--out", rf])
+        lines += [json.loads(l) for l in rf.read_text().splitlines() if l.strip()]
+        # (b) all ordered pairs of the bounded-exhaustive enumeration
+        cfg = "MC_Compat_q.cfg" if tier == "quick" else "MC_Compat_t.cfg"
+        r = vf.tlc_mc(work, "MC_Compat.tla", cfg, workers=2, timeout=900)
+        if not r.ok:
+            raise vf.ToolError(f"MC_Compat: law violated on the model: {r.violated}")
+        rep.add_states(r.distinct, r.generated)
+        enum = [json.loads(s) for s in sorted(set(r.tagged("ENUM")))]
+        if len(enum) < 30:
+            raise vf.ToolError(f"enumeration has only {len(enum)} schemas")
+        n_enum = len(enum)
+        for w in enum:
+            lines.append({"W": w["W"], "vals": w["vals"], "readers": [{"R": x["W"], "hist": []} for x in enum]})
+    scn_file = work / "all.scn.ndjson"
+    scn_file.write_text("\n".join(json.dumps(s) for s in lines) + "\n")
+    ev_file = work / "events.ndjson"
+    harness("avh_c09", ["run", "--scn", scn_file, "--out", ev_file])
+    events = [l for l in ev_file.read_text().splitlines() if l.strip()]
+    if len(events) != len(lines):
+        raise vf.ToolError(f"harness recorded {len(events)} events for {len(lines)} scenarios")
+    parsed = [json.loads(l) for l in events]
+    pairs = sum(len(e["readers"]) for e in parsed)
+    reads = sum(len(r["reads"]) for e in parsed for r in e["readers"])
+    full = sum(1 for e in parsed for r in e["readers"] if r["cr_wr"]["vd"] == "Full" and r["reads"])
+    if not replay and full == 0:
+        raise vf.ToolError("no pair was reported Full (soundness clause vacuous)")
+    import time
+    t_j = time.time()
+    chunk = max(20, -(-len(events) // 8))
+    verdicts, st, tr = vf.judge_events(work, "Trace_Compat.tla", "Trace_Compat.cfg", events, chunk=chunk, jobs=4, timeout=1500)
+    vf.log(f"judged {len(events)} events ({pairs} pairs, {reads} reads) in {time.time() - t_j:.0f}s")
+    rep.add_states(st, tr)
+    rep.cov["traces_validated_against_impl"] = pairs
+    rep.cov["evaluations"] = reads
+    rep.cov["distinct_nontrivial"] = full
+    rep.cov["exhaustive"] = False
+    rep.cov["enumeration_schemas"] = n_enum
+    rep.cov["evolution_pairs"] = n_evo
+    rep.cov["rule"] = (
+        "pairs = the evolution pairs explored by MC_Resolve (all of <= 1 step, seeded sample of longer ones) + seeded random"
+        " evolution pairs + ALL ordered pairs of MC_Compat's schema enumeration (incl. recursive shapes, one named type in two"
+        " fields in both orders, equal-named references with different definitions). For every pair the four verdicts and"
+        " can_read(R,R) are recorded, and the real read with R of every boundary value of W. traces = (W,R) pairs judged;"
+        " evaluations = reads executed; non-trivial = pairs reported Full with at least one value read.")
+    for e in parsed[:1] + parsed[-2:]:
+        rep.sample({"W": e["W"], "readers": len(e["readers"]), "values": len(e["vals"]),
+                    "first_reader": {"R": e["readers"][0]["R"], "can_read": e["readers"][0]["cr_wr"]["vd"]} if e["readers"] else {}})
+    rep.assumptions += [
+        "spec/Resolve.tla is the oracle for 'readable' (used to attribute failures and for the drift reports); the verdict-layer clauses use only recorded verdicts and recorded reads",
+        "SafeHistory is computed in TLA+ from the recorded step kinds; for harness-generated histories the claim is cross-checked (every recorded value must resolve in every reading, else TOOL error)",
+        "named types are compared by full name; the universes never contain two full names with the same unqualified name",
+    ]
+
+    def replay_of(i):
+        return {"scenario": lines[i], "event": parsed[i]}
 
     rep.classify(verdicts, replay_of)
     return rep.finish()
